@@ -11,6 +11,7 @@ import DimModel.Lib.DatasetOps
 import DimModel.Proofs.C14
 import DimModel.Proofs.C14Ops
 import DimModel.Proofs.C14Ops2
+import DimModel.Proofs.C14Ops3
 namespace DimModel
 open Lib
 
@@ -1177,6 +1178,341 @@ theorem stackDsA_spec {α : Type} [Inhabited α] (nan : α) (datasets : List (Ds
       rw [hal] at h
       replace h : stackDsBody nan name aligned keys kk = .ok out := h
       exact ⟨name, aligned, rfl, rfl, stackDsBody_stackDs nan name aligned keys kk out h⟩
+
+/-! #### extension "c14ops3": take_axis with raw positions and mode=, reindex_axis with method= / raise_error= -/
+
+/-- TAKE_AXIS (indexing='position', mode='raise' / 'clip' / 'wrap', raw integers - negative and out-of-range ones
+included; the axis by name or by position among the DATASET's dimensions).  The Dataset resolves the positions ONCE,
+against its own axis (`Axis.take(indices, mode)`), and hands `np.take(..., mode)` to `reduce_axis`; when it succeeds
+the axis key named a dimension `name` of the Dataset and every variable that has the dimension comes back as that
+variable's own `take_axis(indices, axis=name, indexing='position', mode=mode)`, the others as they are; keys and
+Dataset metadata kept; shared own axes. -/
+theorem takeAxisIntsDs_spec {α : Type} (ds out : Ds α) (axis : DimKey) (is : List Int) (mode : TakeMode)
+    (hg : GoodDs ds) (h : takeAxisIntsDs ds axis is mode = .ok out) :
+    ∃ name, dsAxisName ds axis = .ok name ∧
+    out.keys = ds.keys ∧ out.attrs = ds.attrs ∧ SharedAxes out ∧ OwnAxes out ∧
+    ∀ k v, (k, v) ∈ ds.vars → ∃ r, (k, r) ∈ out.vars ∧
+      (name ∈ v.dims → takeAxisInts v (.name name) is mode = .ok r) ∧ (name ∉ v.dims → r = v) := by
+  unfold takeAxisIntsDs at h
+  cases hn : dsAxisName ds axis with
+  | error e => rw [hn] at h; cases h
+  | ok name =>
+    rw [hn] at h
+    simp only [bind, Except.bind] at h
+    split at h
+    · cases h
+    · rename_i ax hfind
+      cases hps : is.mapM (takePos ax.size mode) with
+      | error e => rw [hps] at h; cases h
+      | ok ps =>
+        rw [hps] at h
+        simp only at h
+        obtain ⟨h1, h2, h3, h4, h5⟩ := takeAxisPosDs_spec ds out name ps hg h
+        refine ⟨name, rfl, h1, h2, h3, h4, ?_⟩
+        intro k v hkv
+        obtain ⟨r, hr, hin, hnot⟩ := h5 k v hkv
+        refine ⟨r, hr, ?_, hnot⟩
+        intro hmem
+        have hax := axes_getD_idxOf v name hmem
+        rw [takeAxisInts_name_ok v name hmem ax (hg.axis_eq hfind hkv _ hax.1 hax.2) is mode ps hps
+          (takeAxisPosDs_size ds out name ps ax hfind h), hin hmem]
+
+/-- totality of `takeAxisIntsDs` on a good Dataset: it only fails where NumPy does - an axis key that names no
+dimension, a position that `np.take(mode=...)` rejects, a non-empty take from an empty axis -/
+theorem takeAxisIntsDs_ok {α : Type} (ds : Ds α) (axis : DimKey) (is : List Int) (mode : TakeMode) (hg : GoodDs ds)
+    (name : String) (hname : dsAxisName ds axis = .ok name) (ax : Axis)
+    (hfind : ds.axes.find? (fun a => a.name == name) = some ax) (ps : List Nat)
+    (hps : is.mapM (takePos ax.size mode) = .ok ps) (hsz : ¬ (ax.size == 0 && !ps.isEmpty) = true) :
+    ∃ out, takeAxisIntsDs ds axis is mode = .ok out := by
+  obtain ⟨out, hout⟩ := takeAxisPosDs_ok ds name ps hg ax hfind hsz
+  refine ⟨out, ?_⟩
+  unfold takeAxisIntsDs
+  rw [hname]
+  simp only [bind, Except.bind]
+  rw [hfind]
+  simp only
+  rw [hps]
+  exact hout
+
+/-- the three modes differ (so the mode must reach NumPy unchanged): position 4 along an axis of length 3 -/
+theorem takePos_modes : (takePos 3 .raise 4).toOption = none ∧ (takePos 3 .clip 4).toOption = some 2 ∧
+    (takePos 3 .wrap 4).toOption = some 1 ∧ (takePos 3 .raise (-1)).toOption = some 2 ∧
+    (takePos 3 .clip (-1)).toOption = some 0 ∧ (takePos 3 .wrap (-4)).toOption = some 2 := by decide
+
+/-- `takeAxisIntsDs_spec` is not vacuous: `exDs.take_axis([-1, 4], axis=0, indexing='position', mode='wrap')` -/
+example : ∃ out, takeAxisIntsDs exDs (.pos 0) [-1, 4] .wrap = .ok out ∧ out.keys = ["a", "b"] ∧
+    (∃ r, ("a", r) ∈ out.vars ∧ takeAxisInts exA (.name "x") [-1, 4] .wrap = .ok r) ∧ ("b", exB) ∈ out.vars := by
+  obtain ⟨out, hout⟩ := okKeys_some (r := takeAxisIntsDs exDs (.pos 0) [-1, 4] .wrap) (ks := ["a", "b"]) (by decide)
+  obtain ⟨name, hn, h1, _, _, _, h5⟩ := takeAxisIntsDs_spec exDs out (.pos 0) [-1, 4] .wrap exDs_good hout
+  have hx : name = "x" := by
+    have : (dsAxisName exDs (.pos 0)).toOption = some "x" := by decide
+    rw [hn] at this
+    exact (Option.some.inj this)
+  subst hx
+  obtain ⟨ra, hra, hina, _⟩ := h5 "a" exA (by simp [exDs])
+  obtain ⟨rb, hrb, _, hnotb⟩ := h5 "b" exB (by simp [exDs])
+  refine ⟨out, hout, h1, ⟨ra, hra, hina (by decide)⟩, ?_⟩
+  rw [← hnotb (by decide)]
+  exact hrb
+
+/-- REINDEX_AXIS in full (`method=None / 'left' / 'right'`, `raise_error=`): when `Dataset.reindex_axis(values, axis=name,
+fill_value, raise_error, method)` succeeds, every variable that has the dimension comes back as
+`reindex_axis(values, axis=name, fill_value, raise_error, method)` of that variable - the same side of `searchsorted`,
+the requested labels written into the axis, filled (and widened) with method=None only - and the variables without the
+dimension are left alone; keys and Dataset metadata kept; shared own axes. -/
+theorem reindexAxisDsM_spec {α : Type} (ds out : Ds α) (name : String) (newL : List Label) (newKind fillKind : Kind)
+    (fill : α) (raiseErr : Bool) (method : Option Side) (hg : GoodDs ds)
+    (h : reindexAxisDsM ds name newL newKind fill fillKind raiseErr method = .ok out) :
+    out.keys = ds.keys ∧ out.attrs = ds.attrs ∧ SharedAxes out ∧ OwnAxes out ∧
+    ∀ k v, (k, v) ∈ ds.vars → ∃ r, (k, r) ∈ out.vars ∧
+      (name ∈ v.dims → reindexAxis v (.name name) newL newKind fill fillKind raiseErr method = .ok r) ∧
+      (name ∉ v.dims → r = v) := by
+  obtain ⟨ax, taken, hfind, hne, htk, hre, hout⟩ :=
+    reindexAxisDsM_closed ds out name newL newKind fillKind fill raiseErr method h
+  obtain ⟨t1, t2, t3, t4, t5⟩ := takeAxisPosDs_spec ds taken name _ hg htk
+  have haxn : ax.name = name := (find?_name_some hfind).2
+  have hgetD : ∀ k v, (k, v) ∈ ds.vars → name ∈ v.dims → v.axes.getD (v.dims.idxOf name) default = ax := by
+    intro k v hkv hmem
+    have hax := axes_getD_idxOf v name hmem
+    exact hg.axis_eq hfind hkv _ hax.1 hax.2
+  by_cases hany : (mismatchMask ax.labels (locateMany ax.labels newL (method.getD .left)) newL).any id = true
+  · -- some requested label is absent: the patched variables
+    rw [if_pos hany] at hout
+    obtain ⟨ax', hfind', htaken⟩ := takeAxisPosDs_closed ds taken name _ hg.2.1 hg.1.2.2 hg.2.2.1 htk
+    rw [hfind] at hfind'
+    cases hfind'
+    have hsh := rxM_shared taken name ax newL newKind fill fillKind method t3 t4
+    refine ⟨?_, ?_, by rw [hout]; exact hsh.1, by rw [hout]; exact hsh.2, ?_⟩
+    · rw [← t1, hout]
+      simp only [rxOutM, Ds.keys, List.map_map]
+      apply List.map_congr_left
+      intro kv _
+      exact rxPatchM_fst name ax newL newKind fill fillKind method kv
+    · rw [← t2, hout]
+      rfl
+    · intro k v hkv
+      have hmemt : (k, reduceVar name (takeNewAxis name ax (locateMany ax.labels newL (method.getD .left)))
+          (takeVals (locateMany ax.labels newL (method.getD .left))) v) ∈ taken.vars := by
+        rw [htaken]
+        exact List.mem_map_of_mem (f := fun kv => (kv.1, reduceVar name (takeNewAxis name ax
+          (locateMany ax.labels newL (method.getD .left))) (takeVals (locateMany ax.labels newL (method.getD .left))) kv.2)) hkv
+      have hmemo := List.mem_map_of_mem (f := rxPatchM name ax newL newKind fill fillKind method) hmemt
+      by_cases hmem : name ∈ v.dims
+      · rw [rxPatchM_reduceVar_eq v k name ax hmem (hg.2.2.2 (k, v) hkv).1 haxn newL newKind fill fillKind method _ rfl hany]
+          at hmemo
+        exact ⟨_, by rw [hout]; exact hmemo,
+          fun _ => reindexAxis_name_okM v name hmem ax (hgetD k v hkv hmem) newL newKind fill fillKind raiseErr method hne hre,
+          fun hn => absurd hmem hn⟩
+      · rw [reduceVar_of_not_mem name _ _ v hmem, rxPatchM_of_not_mem name ax newL newKind fill fillKind method (k, v) hmem] at hmemo
+        exact ⟨v, by rw [hout]; exact hmemo, fun hm => absurd hm hmem, fun _ => rfl⟩
+  · -- every requested label is present: the clipped take is the result
+    rw [if_neg hany] at hout
+    subst hout
+    refine ⟨t1, t2, t3, t4, ?_⟩
+    intro k v hkv
+    obtain ⟨r, hr, hin, hnot⟩ := t5 k v hkv
+    refine ⟨r, hr, ?_, hnot⟩
+    intro hmem
+    rw [reindexAxis_name_okM v name hmem ax (hgetD k v hkv hmem) newL newKind fill fillKind raiseErr method hne hre, hin hmem]
+    unfold rxResultM
+    rw [if_neg hany]
+
+/-- with the defaults the full mirror is the round-2 mirror -/
+theorem reindexAxisDsM_default {α : Type} (ds : Ds α) (name : String) (newL : List Label) (newKind fillKind : Kind)
+    (fill : α) : reindexAxisDsM ds name newL newKind fill fillKind false none =
+      reindexAxisDs ds name newL newKind fill fillKind := by
+  unfold reindexAxisDsM reindexAxisDs
+  cases ds.axes.find? (·.name == name) with
+  | none => rfl
+  | some ax =>
+    simp only [Option.getD_none, Option.isNone_none, if_true, Bool.false_eq_true, if_false]
+
+/-- RAISE_ERROR=True: a requested label that the Dataset's axis lacks makes `Dataset.reindex_axis` fail (IndexError),
+as `DimArray.reindex_axis` of every variable that has the dimension does -/
+theorem reindexAxisDsM_raise {α : Type} (ds out : Ds α) (name : String) (newL : List Label) (newKind fillKind : Kind)
+    (fill : α) (method : Option Side) (ax : Axis) (hfind : ds.axes.find? (fun a => a.name == name) = some ax)
+    (h : reindexAxisDsM ds name newL newKind fill fillKind true method = .ok out) :
+    (mismatchMask ax.labels (locateMany ax.labels newL (method.getD .left)) newL).any id = false := by
+  obtain ⟨ax', _, hfind', _, _, hre, _⟩ := reindexAxisDsM_closed ds out name newL newKind fillKind fill true method h
+  rw [hfind] at hfind'
+  cases hfind'
+  exact hre rfl
+
+/-- the hypothesis of `reindexAxisDsM_spec` is satisfiable for every good Dataset: `reindex_axis` along an existing
+dimension only fails on NumPy's "take from an empty axis" and - with raise_error=True - on an absent label -/
+theorem reindexAxisDsM_ok {α : Type} (ds : Ds α) (name : String) (newL : List Label) (newKind fillKind : Kind)
+    (fill : α) (raiseErr : Bool) (method : Option Side) (hg : GoodDs ds) (ax : Axis)
+    (hfind : ds.axes.find? (fun a => a.name == name) = some ax)
+    (hne : ¬ (ax.labels.isEmpty && !newL.isEmpty) = true) (hsz : ¬ (ax.size == 0 && !newL.isEmpty) = true)
+    (hre : raiseErr = true →
+      (mismatchMask ax.labels (locateMany ax.labels newL (method.getD .left)) newL).any id = false) :
+    ∃ out, reindexAxisDsM ds name newL newKind fill fillKind raiseErr method = .ok out := by
+  have hlen : (locateMany ax.labels newL (method.getD .left)).length = newL.length := by
+    simp [locateMany]
+  obtain ⟨taken, htk⟩ := takeAxisPosDs_ok ds name (locateMany ax.labels newL (method.getD .left)) hg ax hfind
+    (by rw [isEmpty_of_length_eq _ _ hlen]; exact hsz)
+  unfold reindexAxisDsM
+  rw [hfind]
+  simp only [bind, Except.bind, pure, Except.pure]
+  rw [if_neg hne, htk]
+  simp only
+  by_cases hany : (mismatchMask ax.labels (locateMany ax.labels newL (method.getD .left)) newL).any id = true
+  · have hrf : raiseErr = false := by
+      cases raiseErr
+      · rfl
+      · rw [hre rfl] at hany; cases hany
+    subst hrf
+    simp [hany]
+  · simp [hany]
+
+/-! #### reductions without an axis (`Dataset.mean(axis=None)` ...) -/
+
+/-- REDUCTIONS with axis=None (`_apply_dimarray_axis(funcname, axis=None)`): on a Dataset with distinct keys the call
+always succeeds; the result has the keys of the Dataset in their order, NO axes and no metadata, and every variable
+`k` - whatever its dimensions, the 0-d ones included - IS the DimArray reduction of that variable over all its cells
+(`Lib.reduceAxis` with `AxisArg.none`, a scalar `c`) stored as the 0-d `DimArray(c)`; the result is a good Dataset. -/
+theorem reduceAllDs_spec {α : Type} (nan : α) (red : List α → α) (ds : Ds α) (hk : ds.keys.Nodup) :
+    ∃ out, reduceAllDs nan red ds = .ok out ∧
+    out.keys = ds.keys ∧ out.axes = [] ∧ out.attrs = [] ∧ GoodDs out ∧
+    ∀ k v, (k, v) ∈ ds.vars → ∃ c, reduceAxis red v .none = .ok (.inl c) ∧ (k, scalarVar c v.vkind) ∈ out.vars := by
+  have hsub : ∀ kv ∈ reducedAllVars red ds, ∀ ax ∈ kv.2.axes, ax ∈ ([] : List Axis) := by
+    intro kv hkv ax hax
+    obtain ⟨kv0, _, rfl⟩ := List.mem_map.1 hkv
+    exact hax
+  have hkeys : (reducedAllVars red ds).map (·.1) = ds.keys := by
+    simp only [reducedAllVars, Ds.keys, List.map_map]
+    rfl
+  obtain ⟨out, hout⟩ := fromVars_own_ok nan [] List.nodup_nil (fun e he => by cases he) (reducedAllVars red ds) hsub
+  obtain ⟨hv, hat, hsh, hown, _, hax⟩ := fromVars_own nan [] List.nodup_nil (fun e he => by cases he)
+    (reducedAllVars red ds) out hsub (hkeys ▸ hk)
+    (by
+      intro kv hkv
+      obtain ⟨kv0, _, rfl⟩ := List.mem_map.1 hkv
+      exact List.nodup_nil) hout
+  have haxes : out.axes = [] := List.eq_nil_iff_forall_not_mem.2 fun e he => by cases hax e he
+  refine ⟨out, (reduceAllDs_eq nan red ds).trans hout, ?_, haxes, hat, ⟨hsh, hown, ?_, ?_⟩, ?_⟩
+  · show out.vars.map (·.1) = ds.keys
+    rw [hv, hkeys]
+  · show (out.vars.map (·.1)).Nodup
+    rw [hv, hkeys]
+    exact hk
+  · intro kv hkv
+    rw [hv] at hkv
+    obtain ⟨kv0, _, rfl⟩ := List.mem_map.1 hkv
+    exact ⟨List.nodup_nil, rfl, fun ax hax => by cases hax⟩
+  · intro k v hkv
+    refine ⟨red v.vals.toList, reduceAxis_none_eq red v, ?_⟩
+    rw [hv]
+    exact List.mem_map_of_mem (f := fun kv : String × DimArray α => (kv.1, scalarVar (red kv.2.vals.toList) kv.2.vkind)) hkv
+
+/-- axis=None is not "the default axis": `exDs.sum()` (axis=0) keeps `y`, `exDs.sum(axis=None)` has no axis left and
+reduces `b` (which lacks `x`) too -/
+example : ∃ out, reduceAllDs 0 exSum exDs = .ok out ∧ out.keys = ["a", "b"] ∧ out.axes = [] ∧
+    ("a", scalarVar 21 .i) ∈ out.vars ∧ ("b", scalarVar 15 .i) ∈ out.vars := by
+  obtain ⟨out, hout, h1, h2, _, _, h5⟩ := reduceAllDs_spec 0 exSum exDs (by decide)
+  obtain ⟨ca, hca, hma⟩ := h5 "a" exA (by simp [exDs])
+  obtain ⟨cb, hcb, hmb⟩ := h5 "b" exB (by simp [exDs])
+  have ha : ca = 21 := by
+    rw [reduceAxis_none_eq] at hca
+    have := Sum.inl.inj (Except.ok.inj hca)
+    rw [← this]; decide
+  have hb : cb = 15 := by
+    rw [reduceAxis_none_eq] at hcb
+    have := Sum.inl.inj (Except.ok.inj hcb)
+    rw [← this]; decide
+  subst ha hb
+  exact ⟨out, hout, h1, h2, hma, hmb⟩
+
+/-! #### concatenate_ds with align=True, totality of the reflected operators -/
+
+/-- the alignment step of `concatenate_ds(..., align=True)`: one `align(datasets, axis=d, strict=True, join, sort)` per
+dimension `d` of any of the Datasets other than the concatenation dimension -/
+def concatAlign {α} (nan : α) (datasets : List (Ds α)) (name : String) (join : Join) (sort : Bool) :
+    Except Err (List (Ds α)) :=
+  ((getDims (datasets.map (·.axes))).filter (· != name)).foldlM
+    (fun dss d => alignDs nan dss join (some d) sort true) datasets
+
+/-- CONCATENATE_DS with align=True (the shape of `stackDsA_spec` and `concatenateDs_spec`).  When
+`concatenate_ds(datasets, axis, align=True, join=, sort=)` succeeds: `axis` resolves ON THE FIRST DATASET AS GIVEN to a
+dimension `name`; every Dataset holds the keys of the first; the alignment (`concatAlign`: `Dataset.reindex_axis` of
+every Dataset onto the common axis of every OTHER dimension) succeeded with `aligned`; the result holds the keys of the
+first Dataset in its order, no metadata, shared own axes; and every variable `k` IS
+`concatenate([ds[k] for ds in aligned], axis=name, _no_check=True)` (`concatenateNoCheck`), which lists the dimensions of
+the first aligned Dataset's variable `k`.  The hypothesis `hnd` (the variables of the first ALIGNED Dataset have distinct
+dimension names) is what `__setitem__` needs to re-link the stored variables. -/
+theorem concatenateDsA_spec {α : Type} (nan : α) (d0 : Ds α) (rest : List (Ds α)) (axis : DimKey) (join : Join)
+    (sort : Bool) (out : Ds α) (hk : d0.keys.Nodup)
+    (hnd : ∀ name a0 t, concatAlign nan (d0 :: rest) name join sort = .ok (a0 :: t) → ∀ kv ∈ a0.vars, kv.2.dims.Nodup)
+    (h : concatenateDsA nan (d0 :: rest) axis true join sort = .ok out) :
+    ∃ name aligned, dsAxisName d0 axis = .ok name ∧ concatAlign nan (d0 :: rest) name join sort = .ok aligned ∧
+    (∀ ds ∈ d0 :: rest, ds.keys.Perm d0.keys) ∧
+    out.keys = d0.keys ∧ out.attrs = [] ∧ SharedAxes out ∧ OwnAxes out ∧
+    (∀ k ∈ d0.keys, ∃ arrays s r, gather aligned k = .ok arrays ∧ concatenateNoCheck arrays name = .ok s ∧
+      (k, r) ∈ out.vars ∧ SameVar r s ∧ ∀ a0 t, arrays = a0 :: t → s.dims = a0.dims) := by
+  replace h : ((d0 :: rest).foldlM catChk none >>= fun variables => dsAxisName d0 axis >>= fun name =>
+      concatAlign nan (d0 :: rest) name join sort >>= fun aligned =>
+      match variables with
+      | none => .error .type
+      | some vars => vars.foldlM (joinStep (fun arrays => concatenateNoCheck arrays name) aligned) {}) = .ok out := h
+  cases hvars : (d0 :: rest).foldlM catChk none with
+  | error e => rw [hvars] at h; cases h
+  | ok variables =>
+    rw [hvars] at h
+    obtain ⟨rfl, hchk⟩ := catChk_spec d0 rest variables hvars
+    replace h : (dsAxisName d0 axis >>= fun name => concatAlign nan (d0 :: rest) name join sort >>= fun aligned =>
+        d0.keys.foldlM (joinStep (fun arrays => concatenateNoCheck arrays name) aligned) {}) = .ok out := h
+    cases hname : dsAxisName d0 axis with
+    | error e => rw [hname] at h; cases h
+    | ok name =>
+      rw [hname] at h
+      replace h : (concatAlign nan (d0 :: rest) name join sort >>= fun aligned =>
+          d0.keys.foldlM (joinStep (fun arrays => concatenateNoCheck arrays name) aligned) {}) = .ok out := h
+      cases hal : concatAlign nan (d0 :: rest) name join sort with
+      | error e => rw [hal] at h; cases h
+      | ok aligned =>
+        rw [hal] at h
+        replace h : d0.keys.foldlM (joinStep (fun arrays => concatenateNoCheck arrays name) aligned) {} = .ok out := h
+        have hdims : ∀ k arrays s, gather aligned k = .ok arrays → concatenateNoCheck arrays name = .ok s →
+            (∀ a0 t, arrays = a0 :: t → s.dims = a0.dims) ∧ s.dims.Nodup := by
+          intro k arrays s hg hs
+          cases arrays with
+          | nil => simp [concatenateNoCheck, bind, Except.bind] at hs
+          | cons a0 t =>
+            have hd := concatenateNoCheck_dims a0 t name s hs
+            refine ⟨fun b0 t' he => by cases he; exact hd, ?_⟩
+            have hrel := gather_rel _ _ _ hg
+            cases hrel with
+            | cons h1 _ =>
+              rw [hd]
+              exact hnd name _ _ hal _ h1
+        obtain ⟨h1, h2, h3, h4, h5, _⟩ := joinLoop_core _ aligned d0.keys out hk
+          (fun v _ arrays r hg hs => (hdims v arrays r hg hs).2) h
+        refine ⟨name, aligned, rfl, hal, hchk, h1, h2, h3, h4, ?_⟩
+        intro k hkm
+        obtain ⟨arrays, s, r, hg, hs, hr, hsame⟩ := h5 k hkm
+        exact ⟨arrays, s, r, hg, hs, hr, hsame, (hdims k arrays s hg hs).1⟩
+
+/-- REFLECTED OPERATORS, totality: `scalar op ds` fails exactly when `scalar op ds[k]` fails for some variable - on a
+good Dataset the re-assembly through `__setitem__` never does -/
+theorem rbinaryOpDs_ok {α : Type} (f : α → α → α) (self : Ds α) (c : α) (hg : GoodDs self)
+    (hv : ∀ kv ∈ self.vars, ∃ r, operationNd f kv.2 (scalarNd c) true = .ok r) :
+    ∃ out, rbinaryOpDs f self (.scalar c) = .ok out := by
+  rw [rbinaryOpDs_eq]
+  apply mapVarsDs_ok _ self hg.2.1 hg.1.2.2
+  intro kv hkv
+  obtain ⟨r, hr⟩ := hv kv hkv
+  exact ⟨r, hr, (operationNd_axes f kv.2 r _ _ hr).1⟩
+
+/-- and conversely: when the Dataset operation succeeds every per-variable operation did (`rbinaryOpDs_scalar_spec`) -/
+theorem rbinaryOpDs_ok_iff {α : Type} (f : α → α → α) (self : Ds α) (c : α) (hg : GoodDs self) :
+    (∃ out, rbinaryOpDs f self (.scalar c) = .ok out) ↔
+      ∀ kv ∈ self.vars, ∃ r, operationNd f kv.2 (scalarNd c) true = .ok r := by
+  constructor
+  · rintro ⟨out, hout⟩ kv hkv
+    obtain ⟨_, _, _, _, h5⟩ := rbinaryOpDs_scalar_spec f self out c hg hout
+    obtain ⟨r, _, hr⟩ := h5 kv.1 kv.2 hkv
+    exact ⟨r, hr⟩
+  · exact rbinaryOpDs_ok f self c hg
 
 end DSV
 
